@@ -3,7 +3,7 @@
 From Coq Require Import ZArith String List Bool Sorting.Permutation Sorting.Sorted.
 From PushModel Require Import Base.Sx Base.Machine Base.ListOps Base.F32 Model.Item Model.GraphT Model.State
   Model.InstrBase Model.IVector Model.Registry Model.Interp Model.RegistryVec Model.RegistryAll
-  Spec.VecSpec Proofs.VecProofs Proofs.VecDispatch.
+  Spec.VecSpec Proofs.VecProofs Proofs.VecDispatch Proofs.SortStable.
 Import ListNotations.
 Open Scope Z_scope.
 
@@ -147,6 +147,93 @@ Theorem C09_sort_spec : forall (FO : FloatOps),
 Proof. exact @sort_instructions. Qed.
 Print Assumptions C09_sort_spec.
 
+(* SORT is STABLE, and that determines the result.  Rust's `sort` / `sort_by` promise a sorted
+   rearrangement in which elements that compare equal keep their relative order (observable for
+   floats: 0.0 and -0.0 compare equal, and so do all NaN); the model sorts by insertion.
+   [eqv le x y := le x y && le y x] (x and y compare equal); "keep their relative order" is: for
+   every k the sub-list of the elements equivalent to k is unchanged.
+
+   The model's sort has the property (transitivity of the comparison is enough) ... *)
+Theorem C09_stable_sort_keeps_equal_order :
+  forall (A : Type) (le : A -> A -> bool),
+    (forall a b c, le a b = true -> le b c = true -> le a c = true) ->
+    forall (l : list A) (k : A), filter (eqv le k) (stable_sort le l) = filter (eqv le k) l.
+Proof. exact @stable_sort_stable. Qed.
+Print Assumptions C09_stable_sort_keeps_equal_order.
+
+(* ... because an insertion cuts the sorted list in two, moves nothing else, and puts the new
+   element behind elements that are not equivalent to it and in front of all the others it is
+   below or equivalent to ... *)
+Theorem C09_insert_before_equivalent :
+  forall (A : Type) (le : A -> A -> bool),
+    (forall a b c, le a b = true -> le b c = true -> le a c = true) ->
+    forall (x : A) (l : list A), StronglySorted (fun a b => le a b = true) l ->
+    exists l1 l2, l = (l1 ++ l2)%list /\ ins_sorted_by le x l = (l1 ++ x :: l2)%list /\
+                  Forall (fun y => eqv le x y = false) l1 /\ Forall (fun y => le x y = true) l2.
+Proof. exact @ins_sorted_before_equivalent. Qed.
+Print Assumptions C09_insert_before_equivalent.
+
+(* ... and for a total preorder ANY sorted rearrangement with the property is the model's
+   result: the contract of a stable sort leaves no freedom, whatever the algorithm. *)
+Theorem C09_stable_sort_is_the_only_one :
+  forall (A : Type) (le : A -> A -> bool),
+    (forall a b, le a b = true \/ le b a = true) ->
+    (forall a b c, le a b = true -> le b c = true -> le a c = true) ->
+    forall l l' : list A,
+      Permutation l l' -> StronglySorted (fun a b => le a b = true) l' ->
+      (forall k, filter (eqv le k) l' = filter (eqv le k) l) ->
+      l' = stable_sort le l.
+Proof. exact @stable_sort_unique. Qed.
+Print Assumptions C09_stable_sort_is_the_only_one.
+
+(* SORT*DESC reverses the ascending result (as the Rust code does: sort, then reverse), so
+   elements that compare equal come out in the REVERSE of their original relative order; and
+   that, too, is the only list sorted downwards with this arrangement of equal elements. *)
+Theorem C09_sort_desc_reverses_equal_order :
+  forall (A : Type) (le : A -> A -> bool),
+    (forall a b c, le a b = true -> le b c = true -> le a c = true) ->
+    forall (l : list A) (k : A),
+      filter (eqv le k) (rev (stable_sort le l)) = rev (filter (eqv le k) l).
+Proof. exact @stable_sort_desc_order. Qed.
+Print Assumptions C09_sort_desc_reverses_equal_order.
+
+Theorem C09_sort_desc_is_the_only_one :
+  forall (A : Type) (le : A -> A -> bool),
+    (forall a b, le a b = true \/ le b a = true) ->
+    (forall a b c, le a b = true -> le b c = true -> le a c = true) ->
+    forall l l' : list A,
+      Permutation l l' -> StronglySorted (fun a b => le b a = true) l' ->
+      (forall k, filter (eqv le k) l' = rev (filter (eqv le k) l)) ->
+      l' = rev (stable_sort le l).
+Proof. exact @stable_sort_desc_unique. Qed.
+Print Assumptions C09_sort_desc_is_the_only_one.
+
+(* The six instructions.  [stable_sorted_perm le v w]: w is a rearrangement of v, sorted, with
+   every class of equivalent elements in its original order; [stable_sorted_perm_desc le v w]: w
+   is a rearrangement of v, sorted downwards, with every class in reversed order
+   (Proofs/SortStable.v).  [sorts_stably]: SORT*ASC replaces the top vector v by a w with
+   [stable_sorted_perm le v w] and SORT*DESC replaces it by [rev w], which satisfies
+   [stable_sorted_perm_desc le v (rev w)]. *)
+Theorem C09_sort_is_stable : forall (FO : FloatOps),
+  sorts_stably st_bvec set_bvec bool_le bvec_sort_asc bvec_sort_desc /\
+  sorts_stably st_ivec set_ivec Z.leb ivec_sort_asc ivec_sort_desc /\
+  ((forall a b, fle_nan_last a b = true \/ fle_nan_last b a = true) ->
+   (forall a b c, fle_nan_last a b = true -> fle_nan_last b c = true -> fle_nan_last a c = true) ->
+   sorts_stably st_fvec set_fvec fle_nan_last fvec_sort_asc fvec_sort_desc).
+Proof. exact @sort_instructions_stable. Qed.
+Print Assumptions C09_sort_is_stable.
+
+(* [sort_result_unique]: EVERY w with [stable_sorted_perm le v w] is the vector SORT*ASC leaves,
+   and every w with [stable_sorted_perm_desc le v w] is the vector SORT*DESC leaves. *)
+Theorem C09_stable_sort_unique : forall (FO : FloatOps),
+  sort_result_unique st_bvec set_bvec bool_le bvec_sort_asc bvec_sort_desc /\
+  sort_result_unique st_ivec set_ivec Z.leb ivec_sort_asc ivec_sort_desc /\
+  ((forall a b, fle_nan_last a b = true \/ fle_nan_last b a = true) ->
+   (forall a b c, fle_nan_last a b = true -> fle_nan_last b c = true -> fle_nan_last a c = true) ->
+   sort_result_unique st_fvec set_fvec fle_nan_last fvec_sort_asc fvec_sort_desc).
+Proof. exact @sort_instructions_unique. Qed.
+Print Assumptions C09_stable_sort_unique.
+
 (* ROTATE (an empty vector stays empty) *)
 Theorem C09_rotate_spec : forall s,
   (forall x xr v r, st_bool s = x :: xr -> st_bvec s = v :: r ->
@@ -268,6 +355,44 @@ Example C09_nonvacuous_not_rotate :
   flip_window negb [true; true; false] 1 = [true; false; true] /\ rotate [1; 2; 3] 9 = [2; 3; 9] /\
   rotate (@nil Z) 9 = [].
 Proof. repeat split; reflexivity. Qed.
+
+(* stability is not vacuous: pairs compared by their first component only.  The sort keeps
+   (1,0) before (1,1) and (2,0) before (2,1); the descending result has them the other way
+   round; and the list with (1,1) before (1,0) is a sorted rearrangement as well (so
+   C09_sort_spec alone does not determine the result) but not a stable one. *)
+Example C09_nonvacuous_sort_stable :
+  let le (p q : Z * Z) := fst p <=? fst q in
+  let l := [(2, 0); (1, 0); (2, 1); (1, 1); (0, 0)] in
+  stable_sort le l = [(0, 0); (1, 0); (1, 1); (2, 0); (2, 1)] /\
+  rev (stable_sort le l) = [(2, 1); (2, 0); (1, 1); (1, 0); (0, 0)] /\
+  eqv le (1, 0) (1, 1) = true /\ eqv le (1, 0) (2, 0) = false /\
+  filter (eqv le (1, 7)) l = [(1, 0); (1, 1)] /\
+  filter (eqv le (1, 7)) (stable_sort le l) = [(1, 0); (1, 1)] /\
+  filter (eqv le (1, 7)) (rev (stable_sort le l)) = [(1, 1); (1, 0)] /\
+  filter (eqv le (1, 7)) [(0, 0); (1, 1); (1, 0); (2, 0); (2, 1)] = [(1, 1); (1, 0)].
+Proof. vm_compute. repeat split. Qed.
+
+Example C09_nonvacuous_sort_unstable_alternative :
+  let le (p q : Z * Z) := fst p <=? fst q in
+  let l := [(1, 0); (1, 1); (2, 0)] in
+  let l' := [(1, 1); (1, 0); (2, 0)] in
+  sorted_perm le l l' /\ l' <> stable_sort le l /\
+  filter (eqv le (1, 0)) l' <> filter (eqv le (1, 0)) l.
+Proof.
+  split; [split|split].
+  - apply perm_swap.
+  - repeat (constructor; [|repeat (constructor; try reflexivity)]). constructor.
+  - vm_compute. discriminate.
+  - vm_compute. discriminate.
+Qed.
+
+(* on the instruction: integers that compare equal are identical, booleans likewise; the
+   instruction-level statement is exercised on floats in Props/FloatFacts.v *)
+Example C09_nonvacuous_sort_instruction : forall (FO : FloatOps),
+  let s := set_ivec empty_state [[3; 1; 2; 1]; [10]] in
+  ivec_sort_asc s = Ok (set_ivec empty_state [[1; 1; 2; 3]; [10]]) /\
+  ivec_sort_desc s = Ok (set_ivec empty_state [[3; 2; 1; 1]; [10]]).
+Proof. intro FO. split; reflexivity. Qed.
 
 (* ---- the pinned tree (before fixes/C09-*.patch) ---- *)
 (* a shorter top vector panicked in every profile *)
